@@ -198,6 +198,8 @@ let handle = function
            | Inl _ -> out_tree r (forget t) false ^ " CRASH free of the result"
            | Inr h2 -> out_tree r (forget t) false ^ Printf.sprintf " leak=%d" (if h_live h2 = [] then 0 else 1)))
      | _ -> "?")
+  | ["msub"; _; _; _] -> "UNMODELLED (merge into a member of a larger tree: implementation and oracle only)"
+  | ["mdeep"; _] -> "UNMODELLED (value built node by node beyond the nesting limit: implementation and oracle only)"
   | ["idpatch"; mode; dh; ph] ->
     (* node identities: document nodes 0.., patch document nodes 1000000.., nodes allocated by the call 2000000.. *)
     let doc = (try parse_json (str_of_hex dh) with Parse_error -> raise Exit) in
